@@ -781,7 +781,15 @@ class Inliner(object):
         # ... and a wrapper of two or three statements extracted from
         # several routines of the module (take the instance off and release
         # its identity; delete the record of a placement) up to six
-        shared = small and _count_stmts(callee.raw.body) <= 3
+        body = callee.raw.body
+        if body and isinstance(body[0], ast.Expr) and isinstance(
+                body[0].value, ast.Constant) and isinstance(
+                    body[0].value.value, str):
+            body = body[1:]         # the docstring is not a step
+        # (a generator of four statements - an upward walk - included; a
+        # four-statement routine is a step of its own, e.g. the trait
+        # recomputation shared by TraitSet.add and TraitSet.remove)
+        shared = small and _count_stmts(body) <= (4 if generator else 2)
         if sites > (6 if shared else 4 if tiny else 2):
             return None
         raw = callee.raw
@@ -820,7 +828,7 @@ class Inliner(object):
                 isinstance(fexpr.value, ast.Name) and
                 fexpr.value.id == 'self' and callee.cls is not None and
                 caller.cls is not None and callee.name.startswith('_') and
-                _count_stmts(callee.raw.body) <= 3):
+                _count_stmts(callee.raw.body) <= 3):  # docstring included
             return False
 
         def bindings(mod):
